@@ -135,6 +135,13 @@ def _bounds(kind, shape, dtype):
     elif kind == "perchan":
         lo = (-(1 + idx % 3)) if signed else (idx % 3)
         hi = lo + 2 + (idx % 5) * 3
+    elif kind == "full":
+        # the whole range of an integer dtype (int8 [-128, 127], int16 [-32768, 32767], uint8 [0, 255]): high - low does
+        # not fit the dtype itself
+        info = np.iinfo(dtype)
+        lo, hi = int(info.min), int(info.max)
+    elif kind == "wide":
+        lo, hi = (-100, 100) if signed else (5, 250)  # int8: high - low = 200 > 127
     elif kind == "inf":
         lo, hi = -np.inf, np.inf
     elif kind == "halfinf":
@@ -1457,6 +1464,11 @@ def _leaf_corner_specs():
         out.append(_box(sh, "uint8", "01"))
         out.append(_box(sh, "uint8", "perchan"))
         out.append(_box(sh, "float64", "asym"))
+        # signed-integer frames whose range overflows their own dtype
+        out.append(_box(sh, "int8", "full"))
+        out.append(_box(sh, "int8", "wide"))
+        out.append(_box(sh, "int16", "full"))
+        out.append(_box(sh, "uint8", "full"))
     out += [_box((), "float32", "inf"), _box((3,), "float32", "inf"), _box((2, 3), "float64", "halfinf")]
     out += [_disc(n) for n in (1, 2, 3, 4, 5)]
     out += [_md(3), _md(1), _md(2, 3), _md(1, 1), _md(1, 4, 1), _md(2, 2), _md(4, 3, 2), _md(5, 1)]
